@@ -45,6 +45,14 @@ static USE_SIMD128: LazyLock<bool> = LazyLock::new(|| {
     !NO_VALUES.contains(&use_simd128.as_str())
 });
 
+#[cfg(feature = "verif-hooks")]
+pub(crate) fn verif_simd_active() -> bool {
+    #[cfg(any(target_arch = "x86", target_arch = "x86_64"))]
+    return *USE_AVX2;
+    #[cfg(not(any(target_arch = "x86", target_arch = "x86_64")))]
+    return false;
+}
+
 lex_enum!(
     /// OrderingOp is an operator for an ordering [`ComparisonOpExpr`].
     #[repr(u8)] OrderingOp {
@@ -554,6 +562,8 @@ impl Expr for ComparisonExpr {
                     return search!(MemchrSearcher::new(byte));
                 }
 
+                #[cfg(feature = "verif-hooks")]
+                crate::verif::yield_point("contains.select_searcher");
                 #[cfg(any(target_arch = "x86", target_arch = "x86_64"))]
                 if *USE_AVX2 {
                     use rand::{Rng, rng};
@@ -592,6 +602,8 @@ impl Expr for ComparisonExpr {
                     }
 
                     let position = rng().random_range(1..bytes.len());
+                    #[cfg(feature = "verif-hooks")]
+                    let position = crate::verif::anchor_override(bytes.len()).unwrap_or(position);
                     return unsafe {
                         match bytes.len() {
                             2 => search!(ArraySearcher(Avx2Searcher::with_position(
@@ -780,6 +792,8 @@ impl Expr for ComparisonExpr {
                         value: &LhsValue<'e>,
                         ctx: &'e ExecutionContext<'e, U>,
                     ) -> bool {
+                        #[cfg(feature = "verif-hooks")]
+                        crate::verif::yield_point("in_list.match_value");
                         ctx.get_list_matcher_unchecked(&self.list)
                             .match_value(self.name.as_str(), value)
                     }
